@@ -63,6 +63,11 @@ ASSUMPTIONS = [
     "other than hash_file, whose rows the theorem needs truthful (tick_ok of StSave); not modelled in Coq - the stream "
     "'checkout' checks that obligation on the real code (workspaces with untracked files at target paths, missing "
     "source objects, copy/hardlink/symlink, update_meta on/off, lazily loaded directory objects, re-checkout, later writes)",
+    "stream 'audit' (harness/props/_c13_audit.py, tools/COVERAGE_AUDIT.md): fixed real-code scenarios in every run over "
+    "every writer / reader route (odb.add's save_many, odb.check, object checkout, migrate.prepare, staging of 999..1001 "
+    "real files, names, symlinked parents / root_dir, hard links to cache objects, inode reuse, mtime resolutions, every "
+    "subset of (inode, mtime, size) moving, algorithm-name pairs, faults inside a batch, state absent/noop/real/shared); "
+    "identical (inode, mtime, size) for different bytes (inode reused AND mtime AND size restored) is outside Ticks: probe",
     "hashing is per path: _get_hashes attaches to every path the digest of that path's bytes, whatever the order in "
     "which pool workers are submitted and complete (the model has no pairing of a submission list with a result list)",
     "translated units (Gen/State.v: _checksum field list, State._get, HASH_VERSION, the non-local guards, "
@@ -179,6 +184,10 @@ class Runner:
 
     def tick(self) -> int:
         self.clock += self.ctx.rng.choice(STEPS)
+        if self.ctx.rng.random() < 0.15:
+            # a whole-second mtime (file systems / tools with 1 s resolution)
+            self.clock = (self.clock // 10**9 + 1) * 10**9
+            self.flags.add("mtime:whole-second")
         return self.clock
 
     def observe(self, fid):
@@ -1693,6 +1702,9 @@ def run_checkout_stream(ctx):
 
 
 def run(ctx):
+    from props import _c13_audit
+
+    audit = _c13_audit.run_audit(ctx)
     run_checkout_stream(ctx)
     items = []
     # 1. corpus + stored regression cases
@@ -1739,7 +1751,14 @@ def run(ctx):
             items.append((case, inp, exp))
         if case["probe"] == "sub-resolution" and stale and SUBRES_SIG in ctx.known:
             ctx.oracle_fail(SUBRES_SIG, stale[0][1], case)
+    probes.update(audit.probes)
     ctx.extra["assumption_probes"] = probes
+    # what this run actually exercised (tools/COVERAGE_AUDIT.md): dimension -> number of cases that had it
+    dims = dict(audit.dims)
+    for k, v in ctx.dist.items():
+        if k.startswith(("flag:", "batch:", "checkout:", "unit:")) or k in ("op:stsave", "op:hash_file_w", "op:mklink"):
+            dims["histories:" + k if not k.startswith("checkout:") else k] = v
+    ctx.extra["input_dimensions"] = dims
     ctx.obligation("probe:touch-back-is-outside-Ticks", probes["touch-back"]["stale_answer_observed"],
                    "a touch back to the recorded mtime (same size, inode) is served from the cache: the model rejects "
                    "the history (ticks_b = false) and reproduces the stale answer; stated assumption, not a finding")
